@@ -209,6 +209,17 @@ BandsOf(kind) == CASE kind \in {"geoid", "projected"} -> 1 [] kind = "datum" -> 
 \* of the operator's documentation: X' = X - (T1 - T0) V in the forward direction)
 Duration(dtGiven, dt, tEpoch, tObs) == IF dtGiven THEN dt ELSE tObs - tEpoch
 
+\* ---- named deviations (what the code is known to do instead; used only to classify an
+\* observation as a known finding when it equals exactly the deviated prediction) ---------
+\* DEV_deformation_epoch_sign: without dt the duration is taken as t_epoch - t_obs
+DurationDEV_deformation_epoch_sign(dtGiven, dt, tEpoch, tObs) == IF dtGiven THEN dt ELSE tEpoch - tObs
+\* DEV_gridshift_inv_outside_unchanged: reference outcome of a tuple outside every grid (no
+\* null grid) is [counted |-> FALSE, nan |-> TRUE] in both directions; the deviation returns
+\* the tuple unchanged (and uncounted) in the inverse direction
+OutsideOutcome(dir) == [counted |-> FALSE, nan |-> TRUE, unchanged |-> FALSE]
+OutsideOutcomeDEV_gridshift_inv_outside_unchanged(dir) ==
+    IF dir = "I" THEN [counted |-> FALSE, nan |-> FALSE, unchanged |-> TRUE] ELSE OutsideOutcome(dir)
+
 \* numerators (over val.den) added to elements 1..3 of a tuple
 Delta(kind, fmt, val, dir) ==
     [e \in 1..3 |-> LET c == Conv(kind, fmt).el[e] IN
